@@ -48,9 +48,10 @@ Definition validb : bool :=
 (* a participant who has own choices instructs a course: the class of the known finding for C02/C03 *)
 Definition in_tc : bool :=
   existsb (fun p => negb (instr_only p) && existsb (fun c => instructs p c) (seq 0 nc)) (seq 0 np).
-(* node well-formedness *)
+(* node well-formedness: indices in range, no fixed or enforced course cancelled, an enforced course is never shrunk below its minimum
+   (the search only generates such nodes: WfPres) *)
 Definition node_wfb (nd : node) : bool :=
   forallb (fun c => (c <? nc) && negb (c_fixed (crs c)) && negb (memb c (n_enf nd))) (n_cancel nd) &&
   forallb (fun c => c <? nc) (n_enf nd) && nodupb (n_enf nd) &&
-  forallb (fun cs => fst cs <? nc) (n_shrink nd).
+  forallb (fun cs => (fst cs <? nc) && (negb (memb (fst cs) (n_enf nd)) || (c_min (crs (fst cs)) <=? snd cs))) (n_shrink nd).
 End Spec.
